@@ -3,6 +3,7 @@ package checks
 import (
 	"context"
 	"fmt"
+	"os"
 	"runtime"
 	"runtime/debug"
 	"strings"
@@ -28,7 +29,7 @@ func runC19(rc *sim.RunCtx) {
 	for s := 0; s < n; s++ {
 		h.Step(s)
 	}
-	if t.Bool(1, 6) {
+	if t.Bool(1, 6) || os.Getenv("VSIM_C19_WRITER") != "" { // the variable forces the writer leg (triage aid)
 		c19WriterLeg(rc, w)
 		return
 	}
@@ -293,8 +294,19 @@ func c19WriterLeg(rc *sim.RunCtx, w *world.World) {
 		// lock yet, so simulated time may pass)
 		rc.Probe("leg-writer-deviation-cycle")
 		dctx, dcancel := contextWithCancel(w)
-		defer dcancel()
-		go w.DS.DeviationMgr(dctx)
+		mgrDone := make(chan struct{})
+		go func() {
+			defer close(mgrDone)
+			w.DS.DeviationMgr(dctx)
+		}()
+		// The manager is stopped between two cycles and is gone before the run ends. (Cancelling it in the middle of a cycle
+		// leaves a goroutine of the cache library behind - ReadKeys keeps sending keys nobody reads any more - which is about
+		// the manager's own context, not about a client's RPC; the property does not speak of it.)
+		defer func() {
+			time.Sleep(time.Second)
+			dcancel()
+			<-mgrDone
+		}()
 		time.Sleep(31 * time.Second)
 		rc.AddSim(31)
 		spinUntil(func() bool { return false }, 300)
@@ -398,6 +410,11 @@ func c19WriterLeg(rc *sim.RunCtx, w *world.World) {
 	}
 	if !spinUntil(all, 400000) {
 		rc.HarnessErr("writer leg does not drain: A=%t B=%t W=%t", isDone("A")(), isDone("B")(), isDone("W")())
+	}
+	if os.Getenv("VSIM_C19_DUMP") != "" {
+		buf := make([]byte, 4<<20)
+		buf = buf[:runtime.Stack(buf, true)]
+		rc.Logf("DUMP-AT-END %s", string(buf))
 	}
 }
 
